@@ -131,8 +131,14 @@ class _OrbitCorrectionService(_DynamicsServiceBase):
         if options is None:
             options = self.correction_options
         
-        # Cache key based on options
-        cache_key = self.make_key("correct", tuple(sorted(options.to_dict().items())))
+        # Cache key based on the state the correction starts from and the options
+        # (the result is a function of both, not of the options alone)
+        start_state = np.asarray(self.domain_obj.dynamics.initial_state, dtype=float)
+        cache_key = self.make_key(
+            "correct",
+            tuple(start_state.tolist()),
+            tuple(sorted(options.to_dict().items())),
+        )
 
         def _factory() -> tuple[np.ndarray, float, OrbitCorrectionDomainPayload, "CorrectionResult"]:
             result = self.corrector.correct(self.domain_obj, options=options)
@@ -144,10 +150,12 @@ class _OrbitCorrectionService(_DynamicsServiceBase):
                     "residual_norm": result.residual_norm,
                 }
             )
-            self.apply_correction(payload)
             return result.x_corrected, 2 * result.half_period, payload, result
 
         state, period, payload, result = self.get_or_create(cache_key, _factory)
+        # Apply on every call: also a cached result is the correction of the
+        # current state, and the period may have been changed by hand since.
+        self.apply_correction(payload)
         return state, period, result
 
     def apply_correction(self, update: OrbitCorrectionDomainPayload) -> OrbitCorrectionDomainPayload:
